@@ -151,6 +151,9 @@ class BufferedPipe:
                     if timeout is not None:
                         timeout -= time.time() - then
                         if timeout <= 0.0:
+                            if len(self._buffer) > 0 or self._closed:
+                                # data (or close) arrived just as time ran out
+                                break
                             raise PipeTimeout()
 
             # something's in the buffer and we have the lock!
